@@ -258,13 +258,26 @@ func c20Paths(c c05Case, viol func(sig, detail string), r *core.Run) {
 	}
 	for _, segs := range t.allPaths() {
 		_, trail := t.resolve(segs)
+		// the path = the tree nodes along it and, below every sharded
+		// directory, the shards on the hash path of the next segment
 		var want []cid.Cid
 		onPath := map[string]bool{}
-		for _, n := range trail {
-			if !onPath[n.Cid.KeyString()] {
-				want = append(want, n.Cid)
+		add := func(c cid.Cid) {
+			if !onPath[c.KeyString()] {
+				want = append(want, c)
 			}
-			onPath[n.Cid.KeyString()] = true
+			onPath[c.KeyString()] = true
+		}
+		for i, n := range trail {
+			add(n.Cid)
+			if n.Kind == "hamt" && i < len(segs) && len(n.Names) > 0 {
+				if hm, err := model.Hamt(s, n.Cid); err == nil {
+					shards, _ := hm.HashPath(segs[i])
+					for _, sc := range shards {
+						add(sc)
+					}
+				}
+			}
 		}
 		same, _ := pathVariants(segs)
 		for _, p := range same[:2] {
@@ -279,14 +292,11 @@ func c20Paths(c c05Case, viol func(sig, detail string), r *core.Run) {
 					viol("walk-error", fmt.Sprintf("%s path %q: %v", c, p, err))
 					continue
 				}
-				var got []cid.Cid
-				for _, x := range store.FirstReads(s.Reads()) {
-					if onPath[x.KeyString()] {
-						got = append(got, x)
-					}
-				}
+				// every request of the traversal, not only those for path blocks:
+				// a block requested off the path is out of order by definition
+				got := store.FirstReads(s.Reads())
 				if !sameOrder(got, want) {
-					viol("load-order path", fmt.Sprintf("%s path %q: path blocks requested as %s, root-to-target order is %s", c, p, shortList(got), shortList(want)))
+					viol("load-order path", fmt.Sprintf("%s path %q: the traversal requested %s, the path in root-to-target order is %s", c, p, shortList(got), shortList(want)))
 				}
 			}
 		}
